@@ -93,6 +93,32 @@ let () =
       let r = if s = "0" then (let (b', r) = vcopy a b (n_of_hex t) (n_of_hex i) in st := (a, b'); r)
               else (let (a', r) = vcopy b a (n_of_hex t) (n_of_hex i) in st := (a', b); r) in
       Printf.printf "%s\t%s\n" id (obs r)
+    | id :: "TO" :: "F" :: s :: t :: i :: _ ->
+      (* store s fetches from the other one *)
+      let (a, b) = !st in
+      let r = if s = "1" then (let (b', r) = vfetch a b (n_of_hex t) (n_of_hex i) in st := (a, b'); r)
+              else (let (a', r) = vfetch b a (n_of_hex t) (n_of_hex i) in st := (a', b); r) in
+      Printf.printf "%s\t%s\n" id (obs (match r with RNoSrc -> RNoSrc | x -> x))
+    | id :: "E" :: _ ->
+      (* the scenario of harness fetch.go at the value level: contents 1,2,3; checkpoints C1=(1,10) C2=(1,20) C3=(2,30) *)
+      let n = n_of_int in
+      let ops s l = List.fold_left (fun s o -> fst (vstep s o)) s l in
+      let a = ops (vinit N0 (n 0)) [OWrite (n 1); OBackup (n 1, n 10, n 1); OFinish (n 101, n 1)] in
+      let b = vinit N0 (n 0) in
+      let (b, _) = vfetch a b (n 1) (n 10) in let b = ops b [ORestore (n 1, n 10)] in
+      let a = ops a [OWrite (n 2); OBackup (n 1, n 20, n 2); OFinish (n 102, n 2)] in
+      let (b, _) = vfetch a b (n 1) (n 20) in let b = ops b [ORestore (n 1, n 20)] in
+      let c2 = ck_lookup b.vs_cks (enc_name (n 1) (n 20)) in
+      let a = ops a [ORestore (n 1, n 10); OWrite (n 3); OBackup (n 2, n 30, n 3); OFinish (n 103, n 3)] in
+      let (b3, fr) = vfetch a b (n 2) (n 30) in
+      let same_ck = (match c2, ck_lookup b3.vs_cks (enc_name (n 1) (n 20)) with
+                     | Some x, Some y -> int_of_n x.ck_dg = int_of_n y.ck_dg && int_of_n x.ck_val = int_of_n y.ck_val | _ -> false) in
+      let live = int_of_n b3.vs_val = 2 in
+      let (b4, r2) = vstep b3 (ORestore (n 1, n 20)) in
+      let (b5, r3) = vstep b4 (ORestore (n 2, n 30)) in
+      let bi x = if x then 1 else 0 in
+      Printf.printf "%s\tfetch=%s ck2_unchanged=%d live_unchanged=%d restore2=%s:%d restore3=%s:%d\n" id (res_str fr) (bi same_ck) (bi live)
+        (res_str r2) (bi (int_of_n b4.vs_val = 2)) (res_str r3) (bi (int_of_n b5.vs_val = 3))
     | id :: "K" :: at :: _ ->
       (* value level: restore returns the content recorded at the backup instant whatever was written later *)
       let s0 = vinit N0 (n_of_dec at) in
